@@ -52,7 +52,17 @@ type xfPeerOpts struct {
 	// handle keeps answering from the served file)
 	PathView *xfNameView
 	Idle     time.Duration
+	// what happens to a CLOSE request (the handle is released when the request arrives, whatever is answered):
+	// CloseFail: it is answered with this failure status; CloseCut: the connection to the client is cut instead
+	CloseFail *xfFail
+	CloseCut  bool
 }
+
+const xfCloseRefusedMsg = "close refused"
+
+// xfPeerLogMax bounds the recorded requests of one case (a client that spins on a reply it takes for progress sends
+// requests as fast as they are answered until its call is given up after 20 s).
+const xfPeerLogMax = 1 << 18
 
 type xfPeer struct {
 	Cli *sftp.Client
@@ -438,8 +448,16 @@ func (p *xfPeer) run() {
 			delete(p.open, q.Handle)
 			p.closes++
 		}
-		p.log = append(p.log, q)
+		if len(p.log) < xfPeerLogMax || q.Stale || pk.Typ == wire.Close {
+			p.log = append(p.log, q)
+		}
+		cut := pk.Typ == wire.Close && p.opts.CloseCut
 		p.mu.Unlock()
+		if cut {
+			// the connection goes away while the CLOSE is outstanding; what the client still writes is read (and recorded)
+			p.SS.CutOutput()
+			continue
+		}
 		if pl := p.ordPlace(q); pl == 0 {
 			if !answerOrdered(q, true) {
 				return
@@ -492,6 +510,9 @@ func (p *xfPeer) answer(q xfReq) []byte {
 	case wire.Close:
 		if q.Stale {
 			return wire.StatusFrame(q.ID, wire.Failure, "close of a stale handle")
+		}
+		if f := p.opts.CloseFail; f != nil {
+			return wire.StatusFrame(q.ID, f.Code, f.Msg)
 		}
 		return wire.StatusFrame(q.ID, wire.OK, "")
 	case wire.Stat, wire.Lstat, wire.Fstat:
